@@ -73,12 +73,12 @@ MANIFEST_ENTRY = {
             "the Spec incl. the PayloadExceededError class and the 24-bit length field: what goes out is one data frame, a payload of 2^24 octets "
             "or more is refused [rs_limits, rs_limits_error_class, full since the F14 and N2 repairs] and is delivered intact by a receiver of either "
             "framework under any segmentation [rs_send_delivered]; no octet stream, however cut, makes an exception leave dataReceived/data_received, "
-            "handshake included [prefix_never_raises, rs_never_raises, full since the F13 and N1 repairs; were prefix_never_raises_partial]; on the "
+            "handshake included [prefix_never_raises, rs_never_raises, full since the F13 and N1 repairs; before the repairs only a partial form could be proved]; on the "
             "asyncio transport every PING is answered with exactly one PONG carrying the same payload, every PONG is consumed, data frames are "
             "delivered, in stream order [aio_serves, aio_writes_only_pongs]; an over-long header aborts the Twisted transport [tw_oversize_rejected]. "
             "Tied to the code by the runs listed in the rule.",
     "note": "Trusted: Lean kernel; the hand-written models mirror the code (checked only by the differential runs); Int32StringReceiver and the "
-            "serializer libraries are exercised, not verified. messages_in_order across the WebSocket engine relies on C01/C03 and is observed "
+            "serializer libraries are exercised, not verified. The order of messages across the WebSocket engine is not a C13 theorem: it relies on C01/C03 and is observed "
             "here only on generated sequences.",
 }
 
